@@ -19,17 +19,25 @@ import (
 
 type c20Case struct {
 	Public map[string]bool `json:"public"` // publicity of every symbol of the store except id
+	Mapped []string        `json:"mapped,omitempty"` // scalar symbols wrapped with MapSymbol after registration: their publicity stays what it was
 	Query  kit.QuerySpec   `json:"query"`
 }
 
-var c20Symbols = []string{"sa", "sb", "ia", "ib", "fa", "ba", "ta", "boss", "home", "roles", "nums", "places", "peers", "tags", "boss.sa", "home.name", "peers.sa"}
+var c20Symbols = []string{"sa", "sb", "ia", "ib", "fa", "ba", "ta", "boss", "home", "roles", "nums", "places", "peers", "tags", "boss.sa", "home.name", "peers.sa", "peers.id", "boss.id"}
+
+// c20Identity is a SymbolMapper that changes nothing
+type c20Identity struct{}
+
+func (c20Identity) Map(_ boltz.EntitySymbol, fieldType boltz.FieldType, value []byte) (boltz.FieldType, []byte) {
+	return fieldType, value
+}
 
 // dotted (linked) symbols are symbols in their own right: public exactly when made public under their full name,
 // whatever the publicity of the link symbol they start with
 var c20Dotted = []struct {
 	name, link string
 	set        bool
-}{{"boss.sa", "boss", false}, {"home.name", "home", false}, {"peers.sa", "peers", true}}
+}{{"boss.sa", "boss", false}, {"home.name", "home", false}, {"peers.sa", "peers", true}, {"peers.id", "peers", true}, {"boss.id", "boss", false}}
 
 // buildC20Store builds the people store with the drawn publicity, using only exported configuration API.
 // buildC20Child layers a child store on the parent; it inherits symbols and their publicity through GrantSymbols.
@@ -43,7 +51,7 @@ func buildC20Child(parent *boltz.BaseStore[boltz.Entity]) *boltz.BaseStore[boltz
 	return child
 }
 
-func buildC20Store(pub map[string]bool) *boltz.BaseStore[boltz.Entity] {
+func buildC20Store(pub map[string]bool, mapped ...string) *boltz.BaseStore[boltz.Entity] {
 	def := boltz.StoreDefinition[boltz.Entity]{EntityType: "people", BasePath: []string{"application"}}
 	p := boltz.NewBaseStore(def)
 	twin := boltz.NewBaseStore(def) // only used to mint fk symbols that are then added without being made public
@@ -88,6 +96,9 @@ func buildC20Store(pub map[string]bool) *boltz.BaseStore[boltz.Entity] {
 			p.MakeSymbolPublic(d.name)
 		}
 	}
+	for _, f := range mapped {
+		p.MapSymbol(f, c20Identity{})
+	}
 	return p
 }
 
@@ -130,6 +141,9 @@ func genC20(t *rapid.T) c20Case {
 	}
 	q.Page = genPaging(t, "pg", 5)
 	c.Query = q
+	if rapid.IntRange(0, 3).Draw(t, "withMapped") == 0 {
+		c.Mapped = rapid.SliceOfNDistinct(rapid.SampledFrom([]string{"sa", "sb", "ia", "ib", "fa", "ba", "ta"}), 1, 3, rapid.ID[string]).Draw(t, "mapped")
+	}
 	// publicity is drawn after the query so that the single non-public symbol usually is a referenced one,
 	// chosen uniformly over the syntactic occurrences (deep positions are then as likely as shallow ones)
 	switch mode := rapid.IntRange(0, 9).Draw(t, "mode"); {
@@ -204,7 +218,10 @@ func referenced(q *kit.QuerySpec) map[string][]string {
 
 func runC20(c c20Case) kit.Result {
 	res := kit.Result{}
-	store := buildC20Store(c.Public)
+	store := buildC20Store(c.Public, c.Mapped...)
+	if len(c.Mapped) > 0 {
+		res.Classes = append(res.Classes, "mapped-symbols")
+	}
 	text := c.Query.Render()
 	q, err := ast.Parse(store, text)
 	if err != nil {
@@ -226,6 +243,38 @@ func runC20(c c20Case) kit.Result {
 	}
 	sort.Strings(nonPublic)
 	verr := boltz.ValidateSymbolsArePublic(q, store)
+	// sort fields adopted from this query by a query parsed from the empty filter are referenced by that query too;
+	// a query parsed from the empty filter afterwards references nothing at all
+	if e1, err := ast.Parse(store, ""); err == nil {
+		if err := e1.AdoptSortFields(q); err != nil {
+			res.Err = fmt.Errorf("AdoptSortFields: %v", err)
+			return res
+		}
+		var npSort []string
+		for _, k := range c.Query.Sort {
+			sym := k.Sym
+			if strings.HasPrefix(sym, "tags.") {
+				sym = "tags"
+			}
+			if sym != "id" && !c.Public[sym] {
+				npSort = append(npSort, sym)
+			}
+		}
+		if aerr := boltz.ValidateSymbolsArePublic(e1, store); (aerr != nil) != (len(npSort) > 0) {
+			res.Err = fmt.Errorf("the empty filter with the sort fields of %s adopted (non-public among them: %v): validation says %v", text, npSort, aerr)
+			return res
+		}
+		if e2, err := ast.Parse(store, ""); err != nil {
+			res.Err = fmt.Errorf("the empty filter no longer parses: %v", err)
+			return res
+		} else if err := boltz.ValidateSymbolsArePublic(e2, store); err != nil {
+			res.Err = fmt.Errorf("a query parsed from the empty filter references no symbol but was rejected: %v", err)
+			return res
+		}
+		if len(c.Query.Sort) > 0 {
+			res.Classes = append(res.Classes, "adopted-sort")
+		}
+	}
 	// a child store inherits the parent's symbols with their publicity: it must give the same verdict
 	// (queries with dotted symbols are left out: GrantSymbols hands over the store's own symbols, and whether a
 	// dotted name made public on the parent is public on the child as well is not stated)
